@@ -1,7 +1,8 @@
 SPECIFICATION SpecMC
 CONSTANTS
   Cycles = 2
-  Lost = {"keepNext", "br", "tbl", "bms", "titlePg", "bCs"}
+  Lost = {"keepNext", "br", "tbl", "titlePg", "bCs"}
+  LostKinds = {"bms"}
   MCCtors = {"c.para", "c.headingbm", "c.tbl.2x2"}
   MCFeats = {"p.keepNext.on", "p.bold.on", "p.format.full", "t.nested.d1", "t.merge.h", "p.addbreak"}
   MCSect = {"s.titlepg.on"}
